@@ -1385,12 +1385,43 @@ let rec_case (_input : string) (obs0 : string) : verdict =
   let obs, _ = split_flags_all obs0 in
   { model = obs; oracle = (if obs = "R ok EQ" then [] else [ ("C11", "a value of a self-referential type was not reproduced: " ^ obs) ]) }
 
+(* ---- C02: every single cut and byte-at-a-time ---- *)
+let scut_case (f : fmt) (input : string) (obs0 : string) : verdict =
+  let obs, _ = split_flags_all obs0 in
+  let doc = bytes_of_hex (String.trim input) in
+  let whole = cut_obs (f.parse "P" (-1) [ doc ]) in
+  let arr = Array.of_list doc in
+  let n = Array.length arr in
+  let count = ref 0 and diff = ref None in
+  (if not (ends_with whole "HANG" || ends_with whole "PANIC") then
+     try
+       for i = 1 to n - 1 do
+         let a = Array.to_list (Array.sub arr 0 i) and b = Array.to_list (Array.sub arr i (n - i)) in
+         let o = cut_obs (f.parse "W" (-1) [ a; b ]) in
+         incr count;
+         if o <> whole then begin diff := Some (Printf.sprintf "DIFF W %d %s" i o); raise Exit end
+       done;
+       if n > 0 then
+         List.iter (fun mode ->
+             let o = cut_obs (f.parse mode (-1) (List.map (fun b -> [ b ]) doc)) in
+             incr count;
+             if o <> whole then begin diff := Some (Printf.sprintf "DIFF %s 0 %s" mode o); raise Exit end) [ "W"; "R" ]
+     with Exit -> ());
+  let model = match !diff with
+    | Some d -> Printf.sprintf "WHOLE %s %s" whole d
+    | None -> Printf.sprintf "WHOLE %s ALL %d" whole !count in
+  let oracle = ref [] in
+  (if contains obs " DIFF " then oracle := ("C02", "a cut of the document differs from the whole-buffer parse: " ^ (if String.length obs > 300 then String.sub obs 0 300 else obs)) :: !oracle);
+  (if contains obs "HANG" || contains obs "PANIC" then oracle := ("C03", "parser crashed or hung doc=" ^ (String.trim input)) :: !oracle);
+  { model; oracle = !oracle }
+let scut_case f input obs = try scut_case f input obs with Unknown_float -> { model = fst (split_flags obs); oracle = [] }
+
 let fmts = [ cbor_fmt; ubj_fmt; json_fmt ]
 let () = all_fmts := fmts
 let fmt_handlers =
   ("xc", xc_case) :: ("adapt", adapt_case) ::
   List.concat_map (fun f -> [ (f.fname ^ "enc", enc_case f); (f.fname ^ "parse", parse_case f); (f.fname ^ "dec", dec_case f);
-                              ("rt" ^ f.fname, rt_case f); ("x10" ^ f.fname, x10_case f); ("hist" ^ f.fname, hist_case f); ("cuts" ^ f.fname, cuts_case f) ]) fmts
+                              ("rt" ^ f.fname, rt_case f); ("x10" ^ f.fname, x10_case f); ("hist" ^ f.fname, hist_case f); ("cuts" ^ f.fname, cuts_case f); ("scut" ^ f.fname, scut_case f) ]) fmts
 
 (* a crash or hang is compared as such: what was delivered before is not part of the observation *)
 let canon_obs (o : string) : string =
